@@ -575,8 +575,6 @@ theorem ksSubtractorWith_spec {s : St} {inp : List Bool} (hwf : WF s inp) {x y :
       -- v: the n-bit difference
       generalize hvdef : (addBits ((a0, b0) :: Lr) true).take ((a0, b0) :: Lr).length = vb
       have hvbl : vb.length = n := by rw [← hvdef]; simp [hLlen]
-      have hv : toNat vb + toNat (L0.map Prod.snd) + 2 ^ n =
-          (toNat (L0.map Prod.fst) + 2 ^ n) % 2 ^ n + toNat (L0.map Prod.snd) + 2 ^ n ∨ True := Or.inr trivial
       have hvsum : toNat vb = (toNat (L0.map Prod.fst) + toNat ((L0.map Prod.snd).map (!·)) + 1) % 2 ^ n := by
         rw [← hvdef, toNat_take, toNat_addBits, hLlen, ← hLdef, invSnd_fst, invSnd_snd]
         simp
